@@ -6,6 +6,8 @@ VARIABLE k
 Init == k = 1
 Next == k < N /\ k' = k + 1
 \* the expectation is recomputed from the segment ids, not taken from the record
+\* constructions: literal text, parameter expansions, digits out of $(( )), the whole word as the default of ${nosuch:-word},
+\* the word behind ~/ (HOME holds IFS characters)
 Chk == LET r == Recs[k] e == Expected(r.segs) IN
-       (r.obs.lit = e /\ r.obs.var = e /\ r.obs.arith = e) \/ PrintT(<<"MISMATCH", k>>)
+       (r.obs.lit = e /\ r.obs.var = e /\ r.obs.arith = e /\ r.obs.dflt = e /\ r.obs.tilde = ExpectedTilde(r.segs)) \/ PrintT(<<"MISMATCH", k>>)
 =============================================================================
